@@ -368,7 +368,10 @@ FRESH = [
     ("createBytes4(string)", None), ("createBytes(uint256,string)", "bytes"), ("createString(uint256,string)", "bytes"),
     ("randomUint()", None), ("randomUint(uint256)", "uint"), ("randomInt(uint256)", "int"), ("randomAddress()", None), ("randomBool()", None),
     ("randomBytes(uint256)", "bytes"), ("randomBytes4()", None), ("randomBytes8()", None),
+    ("createUint256(string,uint256,uint256)", "range"), ("randomUint(uint256,uint256)", "range"), ("randomUint(uint256,uint256)", "range"),
 ]
+RANGES = [(0, 10), (5, 5), (0, 2**256 - 1), (1, 2**256 - 1), (0, 2**255), (10, 2**255 + 10), (2**255 - 1, 2**255), (2**255, 2**256 - 1),
+          (2**255 + 5, 2**255 + 7), (3, 2**128), (2**64, 2**200)]
 
 
 def fam_fresh(rnd: random.Random, ncalls: int = 2, ninputs: int = 6):
@@ -382,7 +385,13 @@ def fam_fresh(rnd: random.Random, ncalls: int = 2, ninputs: int = 6):
         code = put_selector(sig)
         size_arg = None
         pos = 0
-        if sized:
+        if sized == "range":
+            lo, hi = rnd.choice(RANGES)
+            size_arg = ("range", lo, hi)
+            first = params.index("uint256")
+            code += mstore_const(BUF + 4 + 32 * first, lo) + mstore_const(BUF + 4 + 32 * (first + 1), hi)
+            pos = 0
+        elif sized:
             size_arg = rnd.choice([1, 7, 8, 9, 64, 128, 255, 256]) if sized in ("uint", "int") else rnd.choice([0, 1, 31, 32, 33, 64])
             code += mstore_const(BUF + 4, size_arg)
             pos = 1
@@ -403,7 +412,7 @@ def fam_fresh(rnd: random.Random, ncalls: int = 2, ninputs: int = 6):
             body += mstore_const(RETBUF + 32 * w, 0)
         meta.append((sig, size_arg))
     code = assemble(body + [("PUSHN", 2, 160 * ncalls), ("PUSHN", 2, 0x1000), "RETURN"])
-    prog = Prog(accounts={TARGET: code}, calldata=[Sym("cd0", 256)], name="fresh-" + "+".join(f"{s.split('(')[0]}{z if z is not None else ''}" for s, z in meta),
+    prog = Prog(accounts={TARGET: code}, calldata=[Sym("cd0", 256)], name="fresh-" + "+".join(f"{s.split('(')[0]}{(z if not isinstance(z, tuple) else f'[{z[1]:#x}..{z[2]:#x}]') if z is not None else ''}" for s, z in meta),
                 meta={"fresh": meta})
     inputs = [{"cd0": 0} for _ in range(ninputs)]
     return prog, inputs
